@@ -20,9 +20,12 @@ class MyList(List[T]): pass
 class Swap(Pair[V, K], Generic[K, V]): pass
 class SeqOf(_M, Sequence[T]): pass
 class BoxOfList(Box[List[T]]): pass
+class _Tag: pass
+class Mid3(Mapping[V, K], Generic[K, V], _Tag): pass      # Generic[...] neither first nor last among three bases: it still fixes the parameter order
+class Mid3b(_Tag, Pair[V, K], Generic[K, V], Sequence[K]): pass
 '''
 ATOMS = ["int", "str", "bool"]
-ARITY = {"Box": 1, "Pair": 2, "Flipped": 2, "StrKeyed": 1, "IntBox": 0, "MyList": 1, "Swap": 2, "SeqOf": 1, "BoxOfList": 1, "Mapping": 2, "Sequence": 1, "List": 1, "Dict": 2}
+ARITY = {"Box": 1, "Pair": 2, "Flipped": 2, "StrKeyed": 1, "IntBox": 0, "MyList": 1, "Swap": 2, "SeqOf": 1, "BoxOfList": 1, "Mid3": 2, "Mid3b": 2, "Mapping": 2, "Sequence": 1, "List": 1, "Dict": 2}
 # C04 is about membership: an object of B[bool] is an object of B[int] (bool is int), whatever the declared variance says about mutation.
 # So every type argument is compared covariantly; what this sub-space pins down is the ROUTE the arguments take through the declared bases.
 VARIANCE = {}
@@ -44,6 +47,10 @@ def bases(t):
         return [("Sequence", a[0])]
     if n == "BoxOfList":
         return [("Box", ("List", a[0]))]
+    if n == "Mid3":         # declared Generic[K, V] in the middle: Mid3[k, v] is a Mapping[v, k]
+        return [("Mapping", a[1], a[0])]
+    if n == "Mid3b":        # Mid3b[k, v] is a Pair[v, k] and a Sequence[k]
+        return [("Pair", a[1], a[0]), ("Sequence", a[0])]
     if n == "List":
         return [("Sequence", a[0])]
     if n == "Dict":
